@@ -478,6 +478,11 @@ func (g *Gen) transSel(e *Expr, env *TEnv) tvT {
 				// every slice/string stored in the heap is well-formed (true of every real state)
 				// (in the entry state it belongs to an object that existed at entry)
 				g.assumeAlways(g.sliceWF(v.t, g.pristine[env.heap(c)]))
+			} else if isInteger(ft) && !g.bv && !strings.Contains(v.t, "q_") {
+				// a stored integer field holds a value of its type (the same fact the code gets at a load)
+				if ti := g.typeInv(v.t, ft, false); ti != "true" {
+					g.assumeAlways(ti)
+				}
 			}
 			return v
 		}
